@@ -92,7 +92,14 @@ class PolicyDirectoryMonitor(multiprocessing.Process):
         self.policy_files = policy_files
 
         for f in sorted(self.file_timestamps.keys()):
-            t = os.path.getmtime(f)
+            try:
+                t = os.path.getmtime(f)
+            except OSError:
+                # The entry vanished or cannot be examined (e.g., a dangling
+                # symbolic link); it is dealt with as removed or unreadable on
+                # a later scan and must not stop this one.
+                self.logger.error("Failure examining file: {}".format(f))
+                continue
             # Any change of the modification time is a change of the file:
             # a repair that restores a backup brings an OLDER time back.
             if t != self.file_timestamps[f]:
@@ -101,7 +108,7 @@ class PolicyDirectoryMonitor(multiprocessing.Process):
                 old_p = [k for k, v in self.policy_map.items() if v == f]
                 try:
                     new_p = operation_policy.read_policy_from_file(f)
-                except ValueError:
+                except (ValueError, OSError):
                     self.logger.error("Failure loading file: {}".format(f))
                     self.logger.debug("", exc_info=True)
                     continue
